@@ -257,6 +257,12 @@ func genStmt(rng *rand.Rand) refStmt {
 				e = []srcTok{kwT("CASE"), kwT("WHEN"), idT(pick(rng, columns)), opT("gt"), numT("1"), kwT("THEN"),
 					strT('\'', pick(rng, trickyBodies)), kwT("ELSE"), strT('\'', "n"), kwT("END")}
 				tag("case-expression")
+				if rng.Intn(2) == 0 {
+					// numbers right after THEN / ELSE / WHEN: a keyword, in any spelling, is never glued to the number after it
+					e = []srcTok{kwT("CASE"), kwT("WHEN"), idT(pick(rng, columns)), opT("gt"), numT("30"), kwT("THEN"),
+						numT(pick(rng, []string{"1", "2.5", "10"})), kwT("ELSE"), numT("0"), kwT("END")}
+					tag("case-expression-numbers")
+				}
 			}
 			if usedExpr[tokJoin(e, false)] {
 				i--
